@@ -209,10 +209,25 @@ def run(tier, seed, broken_proof=False):
     m0 = common.run_model(cand)
     good = [c for c in cand if m0[c["id"]]["part"] is not None and c["base"]][:count]
     cases = []
+    # a few large c-representation objects (>= 10 conditionals: two-digit indices, impacts that are not all equal)
+    big = []
+    for j in range(40):
+        nn = rng.randrange(6, 9)
+        bs = common.gen_base_hierarchy(rng, min(nn, 6), 7)
+        kmax = max(k for k, _, _ in bs)
+        for x in range(nn):
+            kmax += 1
+            bs.append((kmax, common.V(x) if rng.random() < 0.5 else common.Not(common.V(x)), common.T if rng.random() < 0.6 else common.V(rng.randrange(nn))))
+        bs = bs[:rng.randrange(10, 13)]
+        if len(bs) >= 10:
+            big.append(common.make_case("big%d" % j, nn, bs, [], False))
+    mb = common.run_model(big)
+    bigok = [c for c in big if mb[c["id"]]["part"] is not None and len(mb[c["id"]]["part"]) >= 2][: (2 if tier == "quick" else 10)]
+    good = bigok + good
     for i, c in enumerate(good):
         n = c["n"]
         worlds = [bits(w) for w in itertools.product([False, True], repeat=n)]
-        kind = ["system-z", "c-rep", "custom", "custom-partial", "marginal-z", "marginal-c"][i % 6]
+        kind = "c-rep" if c["id"].startswith("big") else ["system-z", "c-rep", "custom", "custom-partial", "marginal-z", "marginal-c"][i % 6]
         cc = {"id": c["id"], "n": n, "sig": c["sig"], "base": c["base"], "kind": kind, "weakly": False,
               "pre": rng.sample(worlds, rng.randrange(0, len(worlds) + 1)), "lazy": rng.sample(worlds, rng.randrange(1, len(worlds) + 1)),
               "queries": [(gen_formula(rng, n, 1, 0.05), gen_formula(rng, n, 1, 0.05)) for _ in range(4)],
